@@ -1,8 +1,13 @@
 (* Property theorems for C14 -- statements only; proofs are `exact` of lemmas.
    Model: C14/ReplaceProto.v over the filesystem of C12/Fs.v. *)
 From Coq Require Import NArith Arith List Bool.
-From GD Require Import C12.Fs C12.FlushProto C14.ReplaceProto C14.ReplaceProofs.
+From GD Require Import C12.Fs C12.FlushProto C14.ReplaceProto C14.ReplaceProofs C14.ReplaceCommit Gen.ReplaceShape.
 Import ListNotations.
+
+(* the translator recognised the two-phase shape of the three drivers, _GD_MoveOver,
+   _GD_FiniRawIO and _GD_MogrifyFile in the current source *)
+Theorem replace_shape_recognised : replace_shape_ok = true /\ drivers = 3.
+Proof. split; reflexivity. Qed.
 
 (* I/O failure during conversion (phase 1), any field, any call, any chunking:
    the call reports an ordinary failure and at EVERY instant -- so also after a
@@ -21,6 +26,42 @@ Theorem replace_crash_safe_before_commit : forall tfd fs k j st q, rep_ok tfd st
   (forall n, k = Some n -> phase1_len tfd fs <= n) ->
   lookup (crash (fst (replace tfd fs k)) j st) q = lookup st q.
 Proof. exact before_commit_frame. Qed.
+
+(* kill or concurrent observer at ANY instant of a replacing operation over any
+   list of fields, any chunking, with or without ONE failing call anywhere
+   (conversion, discard or commit phase): every field keeps a complete copy --
+   its old file untouched under the old name, or its complete new data under
+   the new name *)
+Theorem replace_crash_safe : forall tfd fs k j st, rep_scen tfd fs st ->
+  forall f, In f fs ->
+    lookup (crash (fst (replace tfd fs k)) j st) (r_old f) = lookup st (r_old f) \/
+    lookup (crash (fst (replace tfd fs k)) j st) (r_new f) = Some (newc f).
+Proof. exact replace_crash_safe_lemma. Qed.
+
+(* a call that completes: new data in place under the new name, the old name
+   gone when it changed, no temporary file, nothing else touched *)
+Theorem no_debris_done : forall tfd fs k st, rep_scen tfd fs st ->
+  snd (replace tfd fs k) = Done ->
+  let s' := run (fst (replace tfd fs k)) st in
+  (forall f, In f fs -> lookup s' (r_new f) = Some (newc f) /\ lookup s' (r_tmp f) = None /\
+                        (renamed f = true -> lookup s' (r_old f) = None)) /\
+  (forall q, (forall f, In f fs -> ~ In q (names_of f)) -> lookup s' q = lookup st q).
+Proof. exact replace_done_lemma. Qed.
+
+(* a call that fails during conversion returns an ordinary error and leaves no
+   temporary file (with replace_fault_safe: and everything else as before) *)
+Theorem no_debris_failed : forall tfd fs k st, rep_scen tfd fs st -> k < phase1_len tfd fs ->
+  snd (replace tfd fs (Some k)) = Failed /\
+  forall f, In f fs -> lookup (run (fst (replace tfd fs (Some k))) st) (r_tmp f) = None.
+Proof. exact replace_failed_clean. Qed.
+
+(* GD_E_UNCLEAN_DB is reported exactly for a failing call of the commit phase *)
+Theorem unclean_only_in_commit : forall tfd fs k,
+  snd (replace tfd fs k) = Unclean -> exists n, k = Some n /\ phase1_len tfd fs <= n.
+Proof. exact unclean_commit_lemma. Qed.
+
+Example hypotheses_satisfiable_C14 : exists fs st, rep_scen 5%N fs st /\ fs <> [] /\ 0 < phase1_len 5%N fs.
+Proof. exact rep_scen_example. Qed.
 
 (* full statement: at every instant of (replace ; metaflush) the format file
    and the data files agree (old metadata with old data, or new with new) *)
